@@ -787,9 +787,12 @@ func (m *MonC06) OnEnd(w *World) []Violation {
 					a := &b.answers[k]
 					if a.CID == c.CID && a.Name == name && a.Query == q && a.ReqT < tr.T && a.T > tr.T {
 						if w.stepOfT(a.T) > w.stepOfT(tr.T) && m.deferredBefore(w.stepOfT(a.T), c.CID, fullRID) {
+							// (not the last word: a call made before the subscription existed
+							// has an access request of its own in flight, and the
+							// subscription's own request, answered later, can still be joined)
 							m.class("recheck_still_deferred_at_answer")
 							from = a.T
-							break
+							continue
 						}
 						rq = &log[a.ReqT]
 						m.class("recheck_rides_on_pending_request")
